@@ -5,8 +5,12 @@ package turn
 // H2: RFC 6062 operations — Connect, inbound peer connections, ConnectionBind, the byte pipe.
 
 import (
+	"errors"
 	"fmt"
 	"net"
+	"strings"
+	"testing"
+	"testing/synctest"
 	"time"
 
 	"github.com/pion/stun/v3"
@@ -264,4 +268,90 @@ func (h *h2Hist) opPipe() {
 		pc.self = true
 		h.do(fmt.Sprintf("pclosep %d %d", pc.lid, pc.cid), func() { _ = pc.conn.Close() })
 	}
+}
+
+// h2BindResponseLost (C16, C15; monitor only): the client's data connection is reset right after it sent ConnectionBind, so the
+// server cannot write the success response.  The peer connection named in the request was claimed by that request: it must be
+// released (closed and forgotten), not left bound to nothing until the allocation ends.
+func h2BindResponseLost(t *testing.T, vt *vhT) {
+	synctest.Test(t, func(t *testing.T) {
+		vt.Note("bind-response-lost scenario")
+		lis := []*h2Listener{{stream: true, ip: net.ParseIP("10.0.0.1").To4()}}
+		w := newH2World(vt, ServerConfig{}, lis, true, false)
+		h := &h2Hist{vt: vt, w: w, lastTid: map[string]int{}, owner: map[string]string{}}
+		nonce, _ := w.srv.nonceHash.Generate()
+		cr := &h2Cred{mi: true, nonce: true, nonceOK: true, realm: true, uname: true, known: true, macOK: true, user: "alice", nonceVal: nonce, pass: h2Users["alice"]}
+		a := w.client(0, net.ParseIP("10.0.0.2").To4(), 4000)
+		peerIP := net.ParseIP("10.0.0.9").To4()
+		pl := w.peerListener(peerIP, 9000)
+		peer := proto.PeerAddress{IP: peerIP, Port: 9000}
+		last := func(c *h2Client) *stun.Message {
+			synctest.Wait()
+			fr, _ := c.takeFrames()
+			if len(fr) == 0 {
+				return nil
+			}
+			m := &stun.Message{Raw: fr[len(fr)-1]}
+			if m.Decode() != nil {
+				return nil
+			}
+			return m
+		}
+		send := func(c *h2Client, typ stun.MessageType, attrs ...stun.Setter) *stun.Message {
+			h.tid++
+			c.sendRaw(h.build(typ, h.tid, cr, attrs...))
+			return last(c)
+		}
+		if r := send(a, stun.NewType(stun.MethodAllocate, stun.ClassRequest), proto.RequestedTransport{Protocol: proto.ProtoTCP}); r == nil || r.Type.Class != stun.ClassSuccessResponse {
+			vt.Alarm("h2-setup", "bind-response-lost: Allocate(TCP) failed")
+			w.shutdown()
+			return
+		}
+		_ = send(a, stun.NewType(stun.MethodCreatePermission, stun.ClassRequest), peer)
+		r := send(a, stun.NewType(stun.MethodConnect, stun.ClassRequest), peer)
+		var cid proto.ConnectionID
+		if r == nil || r.Type.Class != stun.ClassSuccessResponse || cid.GetFrom(r) != nil {
+			vt.Alarm("h2-setup", "bind-response-lost: Connect failed")
+			w.shutdown()
+			return
+		}
+		var peerEnd net.Conn
+		select {
+		case peerEnd = <-pl.acc:
+		default:
+		}
+		// the data connection: ConnectionBind is written, then the connection is reset before the server answers
+		da, db, err := w.n.dial(&net.TCPAddr{IP: net.ParseIP("10.0.0.2").To4(), Port: 7100}, w.lisAddr(0).(*net.TCPAddr), "", "")
+		if err != nil {
+			vt.Alarm("h2-setup", "bind-response-lost: data connection: %v", err)
+			w.shutdown()
+			return
+		}
+		db.failWrite = errors.New("simnet: connection reset by peer")
+		h.tid++
+		_, _ = da.Write(h.build(stun.NewType(stun.MethodConnectionBind, stun.ClassRequest), h.tid, cr, cid))
+		synctest.Wait()
+		_ = da.Close()
+		time.Sleep(31 * time.Second) // past the 30 s bind deadline as well
+		synctest.Wait()
+		closed := false
+		if pc, ok := peerEnd.(*simConn); ok && pc != nil {
+			_ = pc.SetDeadline(time.Now())
+			buf := make([]byte, 16)
+			_, rerr := pc.Read(buf)
+			closed = rerr != nil && !strings.Contains(rerr.Error(), "timeout")
+		}
+		if !closed {
+			vt.Alarm("bind-response-lost-leaks-peer-connection", "31 s after a ConnectionBind whose success response could not be written the peer connection is still open")
+		}
+		if r := send(a, stun.NewType(stun.MethodConnect, stun.ClassRequest), peer); r == nil || r.Type.Class != stun.ClassSuccessResponse {
+			code := stun.ErrorCodeAttribute{}
+			if r != nil {
+				_ = code.GetFrom(r)
+			}
+			vt.Alarm("bind-response-lost-leaks-peer-connection", "a new Connect to the same peer is refused (%v): the unusable connection is still registered", code.Code)
+		}
+		vt.Stat("bindlost.scenarios")
+		w.shutdown()
+	})
 }
